@@ -264,3 +264,55 @@ def _site_check(case):
 HARNESS['pydoctor/themes/base/common.html'] = {'cases': _site_cases, 'check': _site_check,
     'covers': ['pydoctor/themes/readthedocs/common.html', 'pydoctor/templatewriter/pages/__init__.py:PackagePage.packageInitTable'],
     'bound': 'the kitchen-sink package under 2 (3) themes / option sets: every visible member is listed by a member table of its parent page'}
+
+
+# ---- extensions that look a name up: an interface that moved is still an interface for those who name its old location ------------
+def _zope_cases(tier, seed):
+    for order in ((0, 1) if tier == 'quick' else (0, 1, 2)):
+        yield {'zope': True, 'order': order}
+
+
+def _zope_check(case):
+    """zp/__init__ re-exports IFoo of zp._impl; consumers derive a sub-interface and declare an implementation, naming IFoo at the old
+    location (zp._impl.IFoo) and at the new one (zp.IFoo): both spellings must give the same documentation"""
+    import contextlib, io
+    from pydoctor import model
+    files = {'zp': ('from zp._impl import IFoo\n__all__ = ["IFoo"]\n', True),
+             'zp._impl': ('from zope.interface import Interface\nclass IFoo(Interface):\n    def m(): "doc"\n', False),
+             'zp.old': ('from zp._impl import IFoo\nfrom zope.interface import implementer\nclass ISubOld(IFoo):\n    "sub"\n'
+                        '@implementer(ISubOld)\nclass ImplOld:\n    def m(self): pass\n@implementer(IFoo)\nclass DirectOld:\n    def m(self): pass\n', False),
+             'zp.new': ('from zp import IFoo\nfrom zope.interface import implementer\nclass ISubNew(IFoo):\n    "sub"\n'
+                        '@implementer(ISubNew)\nclass ImplNew:\n    def m(self): pass\n@implementer(IFoo)\nclass DirectNew:\n    def m(self): pass\n', False)}
+    orders = [['zp', 'zp._impl', 'zp.old', 'zp.new'], ['zp', 'zp.new', 'zp.old', 'zp._impl'], ['zp', 'zp.old', 'zp._impl', 'zp.new']]
+    system = model.System()
+    builder = system.systemBuilder(system)
+    with contextlib.redirect_stdout(io.StringIO()) as out:
+        for name in orders[case['order']]:
+            text, is_pkg = files[name]
+            parent = name.rsplit('.', 1)[0] if '.' in name else None
+            builder.addModuleString(text, name.rsplit('.', 1)[-1], parent_name=parent, is_package=is_pkg)
+        builder.buildModules()
+    fails = []
+    g = system.allobjects.get
+    for suffix in ('Old', 'New'):
+        mod = 'zp.' + suffix.lower()
+        isub, impl, direct = g(f'{mod}.ISub{suffix}'), g(f'{mod}.Impl{suffix}'), g(f'{mod}.Direct{suffix}')
+        if isub is None or impl is None or direct is None:
+            fails.append({'observed': f'{mod}: objects missing', 'required': 'documented', 'class': 'zope-missing'})
+            continue
+        if not getattr(isub, 'isinterface', False) or isub.kind is not model.DocumentableKind.INTERFACE:
+            fails.append({'observed': f'{isub.fullName()} (a subclass of the interface named as in {mod}) has kind {isub.kind}, isinterface={getattr(isub, "isinterface", None)}',
+                          'required': 'an interface, whichever location of the moved base the module names', 'class': 'zope-subinterface-kind'})
+        if impl not in getattr(isub, 'implementedby_directly', []):
+            fails.append({'observed': f'{impl.fullName()} is not among the known implementations of {isub.fullName()}', 'required': 'listed', 'class': 'zope-implementedby'})
+        ifoo = g('zp.IFoo')
+        if ifoo is not None and direct not in getattr(ifoo, 'implementedby_directly', []):
+            fails.append({'observed': f'{direct.fullName()} is not among the known implementations of zp.IFoo', 'required': 'listed', 'class': 'zope-implementedby-moved'})
+    if 'is not an interface' in out.getvalue():
+        fails.append({'observed': 'warning: ' + [l for l in out.getvalue().splitlines() if 'is not an interface' in l][0][:160],
+                      'required': 'no such warning: every named interface is one', 'class': 'zope-warning'})
+    return fails or None
+
+
+HARNESS['pydoctor/extensions/zopeinterface.py:namesInterface'] = {'cases': _zope_cases, 'check': _zope_check,
+    'bound': 'one package re-exporting an interface, consumers naming the old and the new location (sub-interface, @implementer), 2 (3) analysis orders'}
